@@ -56,10 +56,11 @@ type End struct {
 
 // Link is a pair of ends.
 type Link struct {
-	A, B *End
-	mu   sync.Mutex
-	tap  Tap
-	cap  int // stream links: max bytes queued at a receiving end (0 = unbounded); see SetCapacity
+	A, B    *End
+	mu      sync.Mutex
+	tap     Tap
+	partial bool // stream links: see SetPartialWrites
+	cap     int  // stream links: max bytes queued at a receiving end (0 = unbounded); see SetCapacity
 }
 
 func newLink(nameA, nameB string, stream bool) *Link {
@@ -81,6 +82,11 @@ func NewStreamLink(nameA, nameB string) *Link { return newLink(nameA, nameB, tru
 // TCP connection whose peer does not read, Write then blocks until the reader
 // drains the queue or the write deadline expires (timeout error).
 func (l *Link) SetCapacity(n int) { l.mu.Lock(); l.cap = n; l.mu.Unlock() }
+
+// SetPartialWrites makes a bounded stream link take what fits into the remaining room at once (partial
+// write); a write deadline that expires while the rest is waiting returns (bytes taken, ErrTimeout),
+// as net.TCPConn.Write does.
+func (l *Link) SetPartialWrites(on bool) { l.mu.Lock(); l.partial = on; l.mu.Unlock() }
 
 func (e *End) queued() int {
 	n := 0
@@ -186,19 +192,41 @@ func (e *End) Write(p []byte) (int, error) {
 		e.PreWrite(b)
 	}
 	// bounded stream link: wait for room at the receiving end
+	written := 0
 	for e.stream {
 		l.mu.Lock()
 		capacity := l.cap
+		partial := l.partial
 		l.mu.Unlock()
 		if capacity <= 0 {
 			break
 		}
 		peer := e.peer
 		peer.mu.Lock()
-		full := !peer.closed && peer.queued() >= capacity
+		room := capacity - peer.queued()
+		full := !peer.closed && room <= 0
 		peer.mu.Unlock()
-		if !full {
+		if !full && !(partial && room < len(b)) {
 			break
+		}
+		if !full {
+			// partial-write mode (as a TCP socket behaves): what fits into the buffer is taken now, the writer
+			// waits with the rest and a deadline that expires meanwhile reports the bytes already taken
+			chunk := b[:room]
+			b = b[room:]
+			written += room
+			l.mu.Lock()
+			if l.tap != nil {
+				l.tap(e, chunk)
+			}
+			peer.mu.Lock()
+			if !peer.closed {
+				peer.q = append(peer.q, append([]byte(nil), chunk...))
+				peer.wake()
+			}
+			peer.mu.Unlock()
+			l.mu.Unlock()
+			continue
 		}
 		e.mu.Lock()
 		dl, closed := e.wdl, e.closed
@@ -212,14 +240,14 @@ func (e *End) Write(p []byte) (int, error) {
 		}
 		d := time.Until(dl)
 		if d <= 0 {
-			return 0, ErrTimeout
+			return written, ErrTimeout
 		}
 		t := time.NewTimer(d)
 		select {
 		case <-peer.space:
 			t.Stop()
 		case <-t.C:
-			return 0, ErrTimeout
+			return written, ErrTimeout
 		}
 	}
 	l.mu.Lock()
